@@ -25,6 +25,7 @@ func init() {
 		c06OptionHandover(c)
 		wtCandidateRevision(c, "C06.11")
 		initialPacketBuffered(c, "C06.3b")
+		announcedBeforeDispatch(c, "C06.12")
 		timerNilSafe(c, "C07.4") // heartbeat mode keyed on the session revision (arming table)
 	})
 }
